@@ -372,6 +372,17 @@ def wrapper_core_splits(conts):
     return out
 
 
+def _attr_by_name(n):
+    """The constant naming the attribute in getattr/hasattr/setattr/delattr
+    (x, '<name>', ...), else None."""
+    if isinstance(n, ast.Call) and isinstance(n.func, ast.Name) and \
+            n.func.id in ('getattr', 'hasattr', 'setattr', 'delattr') and \
+            len(n.args) >= 2 and isinstance(n.args[1], ast.Constant) and \
+            isinstance(n.args[1].value, str):
+        return n.args[1]
+    return None
+
+
 def attr_profiles(modules, canon):
     """{attribute name: {where: count}} over the package, `where` being
     'module.Class.function' (top-level function or method, by its canonical
@@ -386,6 +397,8 @@ def attr_profiles(modules, canon):
         for n in ast.walk(node):
             if isinstance(n, ast.Attribute):
                 bump(n.attr, where)
+            elif _attr_by_name(n) is not None:
+                bump(_attr_by_name(n).value, where)
     # functions are identified by their POSITION in their container, so
     # that the profile does not depend on function names (which may have
     # been renamed in the same change)
@@ -651,6 +664,10 @@ class Program:
                     if isinstance(n, ast.Attribute) and \
                             n.attr in self.attr_alias:
                         n.attr = self.attr_alias[n.attr]
+                    elif _attr_by_name(n) is not None and \
+                            _attr_by_name(n).value in self.attr_alias:
+                        _attr_by_name(n).value = self.attr_alias[
+                            _attr_by_name(n).value]
                 for st in m.tree.body:
                     if isinstance(st, ast.ClassDef):
                         for cst in st.body:
